@@ -37,16 +37,19 @@ ASSUMPTIONS = [
     'reference model sim/refmodel.py is the abstract model the property speaks of; reserved ids and names are by definition those of live assets',
     'removing the last member of a side removes the association (documented behaviour of remove_asset_from_association)',
     'neighbour lists, member lists and entry points are compared as sets / multisets; exceptions by occurrence only',
-    'operations on objects that were never added, on removed objects that are value-equal to a live one, empty association sides and cross-model objects are unspecified and not generated',
+    'operations on objects that were never added, on removed objects that are value-equal to a live one, empty association sides and cross-model objects are unspecified and not generated - '
+    'except two: remove_association(<removed object whose twin is live>) must be refused without change or remove the twin as a whole, '
+    'and add_asset(<removed object>) is an ordinary add (new id, unique name)',
 ]
 
 NAMES_PLAIN = ['web', 'db', 'fw', 'lan', 'alice', 'key1', 'dmz', 'api']
 NAMES_ODD = ['yes', 'null', '123', '0', 'a: b', '- x', 'éü', '"q"', "it's", '#c', ' lead',
              'x:1', 'Host:0', 'Host:1', 'träd ☃', '{}', '[a]', 'a,b', '~', 'on', '1e3',
              '0x10', 'multi\nline', 'tab\there', '', 'Mainframe\u0085LPAR', 'line\u2028sep',
-             'nb\u00a0sp', 'bom\ufeffx']
+             'nb\u00a0sp', 'bom\ufeffx', 'lock\U0001f512', '\U00020000x']
 EXTRAS = [{'color': 'red'}, {'position': {'x': 1, 'y': -2.5}}, {'tags': ['a', 'b'], 'n': 0},
-          {'note': 'yes'}, {'k': None}, {'1': 'one'}, {'007': 'bond', 'years': {'2024': 1, '-1': 2}}]
+          {'note': 'yes'}, {'k': None}, {'1': 'one'}, {'007': 'bond', 'years': {'2024': 1, '-1': 2}},
+          {'p': 1e-05, 'rate': 2e-07, 'big': 1e+16, 'emoji': 'ok \U0001f512'}]
 
 
 def _clauses_for(prop):
@@ -112,10 +115,13 @@ def new_run_for(prop, rng, tier):
             'restart': 0, 'foreign': 0, 'set_extras': rng.choice([0, 0, 1]),
             'set_assoc_extras': 0, 'legacy': 0, 'neo_ingest': 0, 'neo_import': 0,
             'neo_ingest_graph': 0, 'add_again': rng.choice([0, 1]), 'reload_old': 0,
+            'stale_twin': rng.choice([0, 1]) if prop in ('C05', 'C06') else 0,
         },
     }
     cfg['max_assets'] = 8
     cfg['max_assocs'] = 10
+    # the language graph was regenerated (once or twice) before the classes are built from it
+    cfg['lg_regen'] = rng.choice([0, 0, 0, 0, 0, 1, 2])
     if rng.random() < 0.15 and prop in ('C05', 'C06', 'C07'):
         # tiny universe: few assets, two names, ids 0..2 - short histories are sampled densely
         cfg['tiny'] = True
@@ -332,6 +338,14 @@ class ModelWorld(BaseWorld):
         if o.raised:
             raise SetupRejected('langgraph:' + o.exc_name())
         self.lg = o.value
+        for _ in range(cfg.get('lg_regen', 0)):
+            r = call(self.lg.regenerate_graph)
+            self.count('probe:language_graph_regenerated_before_the_classes_were_built')
+            if r.raised:
+                if self.prop == 'C06':
+                    raise Violation('C06.classes', f'LanguageGraph.regenerate_graph() raised {r.exc!r} '
+                                                   f'for a well-formed language')
+                raise SetupRejected('langgraph_regen:' + r.exc_name())
         o = call(LanguageClassesFactory, self.lg)
         if o.raised:
             if self.prop == 'C06':
@@ -724,6 +738,17 @@ class ModelWorld(BaseWorld):
         return not any(ref.assets[x].id == a.id and ref.assets[x].name == a.name
                        for x in ref.order)
 
+    def gen_stale_twin(self, rng, mi, ref):
+        """A handle somebody kept: an object is removed, a new object with the same content
+        takes its place, then the old handle is used again."""
+        if ref.assoc_order and rng.random() < 0.5:
+            return {'op': 'stale_twin', 'what': 'assoc', 'h': rng.choice(ref.assoc_order),
+                    'h2': self.new_handle('s')}
+        if ref.order:
+            return {'op': 'stale_twin', 'what': 'asset', 'h': rng.choice(ref.order),
+                    'hb': self.new_handle('a'), 'ha': self.new_handle('a')}
+        return None
+
     def gen_remove_asset(self, rng, mi, ref):
         if not ref.order:
             return None
@@ -1001,6 +1026,7 @@ class ModelWorld(BaseWorld):
                 'attach': rng.random() < 0.5, 'analyse': rng.random() < 0.5,
                 'remove': [rng.randrange(200) for _ in range(rng.choice([0, 0, 1, 2, 4]))],
                 'prune': rng.random() < 0.3,
+                'twins': [rng.randrange(200) for _ in range(rng.choice([0, 0, 0, 1, 2]))],
                 'fault': self._gen_peer_fault(rng)}
 
     def gen_reload_old(self, rng, mi, ref):
@@ -1210,6 +1236,93 @@ class ModelWorld(BaseWorld):
         self.freed_names[mi].append(ra.name)
         self.recent_removed[mi].append((ra.id, ra.name))
         self.removed_since = True
+        self.state_changes += 1
+        self.check_model(mi, where=where)
+        return 'ok'
+
+    def do_stale_twin(self, op, mi, model, ref):
+        if op['what'] == 'assoc':
+            h, h2 = op['h'], op['h2']
+            rs = ref.assocs.get(h)
+            if rs is None or not rs.live or h2 in self.obj or self.owner.get(h) != mi:
+                raise Unresolvable()
+            X = self.resolve(h)
+            info = self.L.assoc_by_cls[rs.cls]
+            left, right = list(rs.left), list(rs.right)
+            where = f'remove_association({rs.cls}); add_association(<new object, same type and members>)'
+            o = call(model.remove_association, X)
+            if o.raised:
+                self.fail('C05.must_not_raise', f'remove_association({rs.cls}) raised {o.exc!r}')
+            ref.remove_assoc(h)
+            cls = self._cls(info.cls)
+
+            def build():
+                y = cls()
+                setattr(y, info.lf, [self.obj[x] for x in left])
+                setattr(y, info.rf, [self.obj[x] for x in right])
+                model.add_association(y)
+                return y
+            o = call(build)
+            if o.raised:
+                self.fail('C05.must_not_raise', f'{where} raised {o.exc!r}')
+            self.obj[h2] = o.value
+            self.owner[h2] = mi
+            ref.add_assoc(RefAssoc(h2, info.cls, left, right))
+            self.check_model(mi, where=where)
+            # the old handle again: refused without change, or the twin goes - as a whole
+            o = call(model.remove_association, X)
+            self.count('fault:removed_association_removed_again_while_a_twin_is_live')
+            if not o.raised:
+                ref.remove_assoc(h2)
+            self.state_changes += 1
+            self.check_model(mi, raised=o.raised,
+                             where=where + '; remove_association(<the removed object>) '
+                                           f'[{"refused" if o.raised else "returned"}]')
+            return 'refused' if o.raised else 'twin_removed'
+        h, hb, ha = op['h'], op['hb'], op['ha']
+        ra = ref.assets.get(h)
+        if ra is None or not ra.live or hb in self.obj or ha in self.obj or self.owner.get(h) != mi:
+            raise Unresolvable()
+        A = self.resolve(h)
+        where = f'remove_asset({ra.name!r} id {ra.id})'
+        o = call(model.remove_asset, A)
+        if o.raised:
+            self.fail('C05.must_not_raise', f'{where} raised {o.exc!r}')
+        ref.remove_asset(h)
+        self.recent_removed[mi].append((ra.id, ra.name))
+        self.removed_since = True
+        cls = self._cls(ra.type)
+        kw = dict(ra.defenses)
+        kw['name'] = ra.name
+        o = call(lambda: cls(**kw))
+        if o.raised:
+            raise SetupRejected('twin:' + o.exc_name())
+        B = o.value
+        where += f'; add_asset(<new {ra.type} {ra.name!r}>, asset_id={ra.id})'
+        o = call(model.add_asset, B, asset_id=ra.id)
+        if o.raised:
+            self.fail('C05.must_not_raise', f'{where} raised {o.exc!r} (id and name are free again)')
+        if int(B.id) != ra.id or str(B.name) != ra.name:
+            self.fail('C05.explicit_id', f'{where}: the asset got id {B.id} name {str(B.name)!r}')
+        self.obj[hb] = B
+        self.owner[hb] = mi
+        ref.add_asset(RefAsset(hb, ra.type, ra.name, ra.defenses, {}), ra.id, ra.name)
+        self.check_model(mi, where=where)
+        # the removed object is added again: an asset like any other that is not in the model
+        where += '; add_asset(<the removed object>)'
+        ids, names = ref.live_ids(), ref.live_names()
+        o = call(model.add_asset, A)
+        self.count('fault:removed_asset_added_again_while_a_twin_is_live')
+        if o.raised:
+            self.fail('C05.must_not_raise', f'{where} raised {o.exc!r}')
+        aid = call(lambda: int(A.id))
+        if aid.raised or aid.value in ids or str(A.name) in names:
+            self.fail('C05.unique', f'{where}: the asset got id {A.id!r} name {str(A.name)!r}; '
+                                    f'live ids {sorted(ids)}, names {sorted(names)}')
+        self.obj[ha] = A
+        self.owner[ha] = mi
+        del self.obj[h]         # one object, one handle: the record of its first life is closed
+        ref.add_asset(RefAsset(ha, ra.type, str(A.name), ra.defenses, ra.extras), aid.value, str(A.name))
         self.state_changes += 1
         self.check_model(mi, where=where)
         return 'ok'
@@ -2068,6 +2181,21 @@ class ModelWorld(BaseWorld):
             if g.nodes:
                 if call(g.remove_node, g.nodes[pos % len(g.nodes)]).raised:
                     return 'generation_failed'
+        # ... and steps were added by hand: a second step with the name of an existing one
+        # on the same asset (its own id, the same full name), reached from the same parents
+        from maltoolbox.attackgraph import AttackGraphNode
+        for pos in op.get('twins') or []:
+            if g.nodes:
+                n0 = g.nodes[pos % len(g.nodes)]
+                twin = AttackGraphNode(type=n0.type, name=n0.name, asset=n0.asset,
+                                       ttc=copy.deepcopy(n0.ttc), defense_status=n0.defense_status,
+                                       existence_status=n0.existence_status)
+                if call(g.add_node, twin).raised:
+                    return 'generation_failed'
+                for p_ in list(n0.parents)[:2]:
+                    p_.children.append(twin)
+                    twin.parents.append(p_)
+                self.count('probe:ingested_graph_with_two_steps_of_one_full_name')
         ids = sorted(n.id for n in g.nodes)
         if ids and ids != list(range(len(ids))):
             self.count('probe:ingested_graph_with_id_gaps')
@@ -2101,7 +2229,10 @@ class ModelWorld(BaseWorld):
             return [[label], sorted((k, str(v)) for k, v in props.items())]
         nodes = sorted(canon(cn(n)) for n in g.nodes)
         # "one relationship per edge": an edge listed twice in children is one edge
-        rels = sorted({canon([cn(n), 'Relationship', cn(c)]) for n in g.nodes for c in n.children})
+        # (two distinct steps may look alike - same asset, same name -: edges are told apart
+        # by the node objects, not by what is sent for them)
+        pairs = {(id(n), id(c)): (n, c) for n in g.nodes for c in n.children}
+        rels = sorted(canon([cn(n), 'Relationship', cn(c)]) for n, c in pairs.values())
         if op.get('delete'):
             exp.update(nodes=nodes, rels=rels, single_model=None)
         else:
